@@ -77,6 +77,12 @@ pub fn run_c05(outdir: &str, seed: u64, thorough: bool) -> serde_json::Value {
         "SELECT o.id AS i, c.city AS c FROM orders AS o RIGHT JOIN cities AS c ON o.id = c.pop",
         "SELECT t.amount AS a FROM orders AS t ORDER BY t.amount DESC LIMIT 3",
         "SELECT x.a AS a, u.age AS g FROM (SELECT t.amount AS a, t.user_id AS uid FROM orders AS t ORDER BY t.amount DESC LIMIT 3) AS x JOIN users AS u ON x.uid = u.id",
+        // set operations whose sides are tracked by different operators (a per-unit aggregation on one side, a projection on the other)
+        "SELECT DISTINCT t.status AS s, t.amount AS a FROM orders AS t UNION ALL SELECT o.status AS s, o.amount AS a FROM orders AS o WHERE o.amount > 100",
+        "SELECT o.status AS s, o.amount AS a FROM orders AS o WHERE o.amount > 100 UNION ALL SELECT DISTINCT t.status AS s, t.amount AS a FROM orders AS t",
+        "SELECT COUNT(t.status) AS s, SUM(t.amount) AS a FROM orders AS t GROUP BY t.status UNION ALL SELECT o.id AS s, o.amount AS a FROM orders AS o",
+        "SELECT DISTINCT t.city AS c FROM users AS t UNION SELECT DISTINCT u.city AS c FROM users AS u WHERE u.age > 30",
+        "SELECT DISTINCT t.age AS c FROM users AS t EXCEPT SELECT o.user_id AS c FROM orders AS o",
     ];
     while made < n && attempts < n * 30 {
         attempts += 1;
@@ -89,7 +95,12 @@ pub fn run_c05(outdir: &str, seed: u64, thorough: bool) -> serde_json::Value {
         let rw = match res { Ok(Ok(rw)) => rw, Ok(Err(_)) => { st.bump("not_privacy_unit_preserving"); continue; } Err(_) => { st.bump("rewrite_panicked"); continue; } };
         // only relations that really carry a privacy unit (a public query stays as it is)
         let tracked = rw.relation().schema().iter().any(|f| f.name() == "_PRIVACY_UNIT_");
-        if !tracked { st.bump("public_result"); continue; }
+        if !tracked {
+            // a rewriting accepted as privacy-unit preserving over a protected table without a unit column attributes its rows to nobody
+            if all_nodes(&rel).iter().any(|n| matches!(n, Relation::Table(t) if w.specs.iter().any(|s| s.protected && s.name == t.name()))) {
+                st.violation(json!({"kind":"privacy-unit-preserving-rewriting-without-unit-column","query":sql,"strategy":if hard {"Hard"} else {"Soft"},"columns":rw.relation().schema().iter().map(|f| f.name().to_string()).collect::<Vec<_>>()}));
+            }
+            st.bump("public_result"); continue; }
         // an inner DP aggregation (a published input of a join) depends on every unit by design: it is held
         // fixed in the statement; such rewritings are left to C01 / C02
         if !rw.dp_event().is_no_op() || !noise_sites(rw.relation()).is_empty() { st.bump("has_published_dp_input_skipped"); continue; }
@@ -476,6 +487,16 @@ pub fn run_c09(outdir: &str, seed: u64, thorough: bool) -> serde_json::Value {
         if !tau_sites(rw.relation()).is_empty() { st.bump("keys_need_thresholding_skipped"); continue; }
         made += 1;
         let text = set_noise(&render(rw.relation()), 0.0);
+        // the same query paginated (ORDER BY the keys LIMIT a OFFSET b): its DP rewriting returns the window of the unpaginated DP result
+        let nk0 = kinds.iter().filter(|k| *k == "key").count();
+        let paged: Option<(String, String, String)> = if nk0 > 0 && !pinned && r.chance(1, 2) {
+            let (a, b) = (r.range(1, 3), r.range(0, 2));
+            let ord = (0..nk0).map(|i| format!("k{}", i)).collect::<Vec<_>>().join(", ");
+            let sqlp = format!("{} ORDER BY {} LIMIT {} OFFSET {}", sql, ord, a, b);
+            match catch_unwind(AssertUnwindSafe(|| to_relation(&w, &sqlp).ok().and_then(|rel| rel.rewrite_with_differential_privacy(&w.relations, None, w.privacy_unit.clone(), p.clone()).ok()))) {
+                Ok(Some(rwp)) => Some((sqlp, set_noise(&render(rwp.relation()), 0.0), format!("SELECT * FROM ({}) AS z ORDER BY {} LIMIT {} OFFSET {}", text, ord, a, b))),
+                _ => { st.bump("paginated_variant_not_rewritten"); None } }
+        } else { None };
         for _ in 0..2 {
             // in-range data, every order / item resolving along the privacy-unit path
             let mut data = if pinned { pinned_data() } else { gen_dp_data(&mut r, &w.specs, 12, 5) };
@@ -495,6 +516,13 @@ pub fn run_c09(outdir: &str, seed: u64, thorough: bool) -> serde_json::Value {
             let key = |row: &Vec<SV>| row[..nk].iter().map(|x| x.canon()).collect::<Vec<_>>().join("|");
             // the groups of the DP result are distinct
             { let mut seen = BTreeSet::new(); for grow in got.iter() { if !seen.insert(key(grow)) { st.violation(json!({"kind":"group-returned-twice","query":sql,"group":key(grow)})); break; } } }
+            if let Some((sqlp, textp, expected)) = &paged {
+                if let (Ok((_, gp)), Ok((_, ep))) = (db.query(textp), db.query(expected)) {
+                    st.bump("paginated_windows_compared");
+                    let (gk, ek): (Vec<String>, Vec<String>) = (gp.iter().map(|x| key(x)).collect(), ep.iter().map(|x| key(x)).collect());
+                    if gk != ek { st.violation(json!({"kind":"paginated-dp-result-is-not-the-window-of-the-dp-result","query":sqlp,"returned_groups":gk,"expected_groups":ek})); }
+                } else { st.bump("paginated_variant_not_executable"); }
+            }
             let gotm: BTreeMap<String, &Vec<SV>> = got.iter().map(|row| (key(row), row)).collect();
             for row in want.iter() {
                 let Some(g) = gotm.get(&key(row)) else { st.violation(json!({"kind":"group-missing-from-dp-result","query":sql,"group":key(row)})); continue };
